@@ -38,6 +38,8 @@ pub struct WorldCfg {
     /// also set the remaining configuration fields to non-default values (watchdog
     /// canister, burn_cycles, blocks source)
     pub exotic: bool,
+    /// a blocks source other than the default (management canister)
+    pub custom_source: bool,
 }
 
 impl WorldCfg {
@@ -51,6 +53,7 @@ impl WorldCfg {
             fees: None,
             syncing: true,
             exotic: false,
+            custom_source: false,
         }
     }
     pub fn on(net: Network, threshold: u32) -> Self {
@@ -127,7 +130,7 @@ pub fn reset_canister(cfg: &WorldCfg) {
     ic_btc_canister::init(InitConfig {
         stability_threshold: Some(cfg.threshold as u128),
         network: Some(cfg.net),
-        blocks_source: if cfg.exotic {
+        blocks_source: if cfg.exotic || cfg.custom_source {
             Some(candid::Principal::from_slice(&[7, 7, 7]))
         } else {
             None
@@ -144,6 +147,15 @@ pub fn reset_canister(cfg: &WorldCfg) {
         burn_cycles: if cfg.exotic { Some(Flag::Enabled) } else { None },
         lazily_evaluate_fee_percentiles: Some(flag(cfg.lazy_fees)),
     });
+}
+
+/// The principal the canister was configured to fetch from / forward to.
+pub fn configured_source(cfg: &WorldCfg) -> candid::Principal {
+    if cfg.exotic || cfg.custom_source {
+        candid::Principal::from_slice(&[7, 7, 7])
+    } else {
+        candid::Principal::management_canister()
+    }
 }
 
 impl World {
